@@ -232,6 +232,14 @@ def split_at(ctx, f, n, k, hint="S"):
     return whole, head, tail
 
 
+def telescope(ctx, G, a, L, hint="S"):
+    """L >= 0  ->  Σ_{u<L} (G(a+u+1) - G(a+u)) = G(a+L) - G(a)     (G: python callable Int term -> Real term)"""
+    at, Lt = to_term(a), to_term(L)
+    s = make(lambda u: to_real(to_term(G(at + u + 1))) - to_real(to_term(G(at + u))), Lt, hint)
+    ctx.assume(z3.Implies(Lt >= 0, s.t == to_real(to_term(G(at + Lt))) - to_real(to_term(G(at)))), "lemma:telescope")
+    return s
+
+
 def sum_iterable(x, start=0):
     from .builtins_shim import vc_len, item_of
     n = vc_len(x)
@@ -313,6 +321,9 @@ def prove_schemas(ctx):
         ind("zero", [sf_], lambda m: z3.Implies(m <= n, sf_.at(m) == 0))
     finally:
         ctx.solver.pop()
+    # telescope: Σ_{u<m} (f(k+u+1) - f(k+u)) = f(k+m) - f(k)
+    tel = make(lambda u: f(k + u + 1) - f(k + u), n, "Gtel")
+    ind("telescope", [tel], lambda m: tel.at(m) == f(k + m) - f(k))
     # split_at: whole(n) = head(k) + tail(n-k), induction on d = n-k:  P(d): whole.at(k+d) = head.at(k) + tail_k.at(d)
     tail = make(lambda u: f(k + u), n - k, "Gt")
     ctx.solver.push()
